@@ -647,6 +647,9 @@ var elPaths = []string{"", "dir/t.liquid"}
 var elStarts = []int{0, 1, 7}
 
 func errlocStream(r *Run) {
+	if r.Shard == 0 {
+		errlocPathFamily(r)
+	}
 	g := NewRNG(r.Seed, "errloc")
 	for _, c := range corpusLines("errloc") {
 		if f := strings.Fields(c); len(f) == 6 && r.Mine() {
